@@ -128,9 +128,9 @@ class Q:
                 k = rv["k"]
                 if k == "use":
                     outs.extend(self.origins(rv["op"], depth - 1, _seen))
-                elif k == "ref":
+                elif k in ("ref", "rawptr"):
                     root = self.resolve_place(rv["place"])
-                    outs.append(Origin("place", place=root, borrow="&mut" if rv["mut"] else "&"))
+                    outs.append(Origin("place", place=root, borrow="&mut" if rv.get("mut") else "&"))
                 elif k == "cast" and (rv["cast"].startswith("PointerCoercion") or rv["cast"] in ("Transmute", "PtrToPtr")):
                     outs.extend(self.origins(rv["op"], depth - 1, _seen))
                 elif k == "aggregate":
